@@ -170,7 +170,9 @@ CORPUS = {
         ],
         "same": ["[metadata]\nname = demo\n\n[options]\ninstall_requires =\n    requests\n    {PKG}\n"],
         "spelled": ["[metadata]\nname = demo\n\n[options]\ninstall_requires =\n    {ALT}>=0.1\n    requests\n"],
-        "unwritable": ["[metadata]\nname = demo\n", "[metadata]\nname = demo\n\n[options]\npackages = find:\n"],
+        "unwritable": ["[metadata]\nname = demo\n", "[metadata]\nname = demo\n\n[options]\npackages = find:\n",
+                       # the requirements live in another file: nothing can be appended to the directive
+                       "[metadata]\nname = demo\n\n[options]\ninstall_requires = file: requirements/base.txt\n"],
     },
 }
 
